@@ -374,3 +374,25 @@ package http2
 //@   ensures [C13:unexpected-settings-ack-is-protocol-error] old(flag(f.FrameHeader.Flags, 1)) && old(sc.unackedSettings) <= 0 ==> isConnErr(err, 1)
 //@   ensures [C13:expected-settings-ack-counted] old(flag(f.FrameHeader.Flags, 1)) && old(sc.unackedSettings) > 0 ==> err == nil && sc.unackedSettings == old(sc.unackedSettings) - 1
 //@   ensures [C13:oversized-settings-frame-is-protocol-error] !old(flag(f.FrameHeader.Flags, 1)) && old(len(f.p)) / 6 > 100 ==> isConnErr(err, 1)
+
+//@ -- C11: goroutines that hand a result to the serve loop can always finish, also after the loop has gone
+//@ func (*serverConn).readPreface :: sc -> err
+//@   props C11
+//@   trusted
+//@   assigns unrestricted
+//@   structural [C11:preface-reader-can-deliver-after-timeout] chan_buffered errc
+//@ func (*serverConn).noteBodyReadFromHandler :: sc, st, n, err
+//@   props C11,C12
+//@   trusted
+//@   assigns unrestricted
+//@   structural [C11:body-read-report-released-when-serving-ended] sends_selectable bodyReadCh doneServing
+//@ func (*serverConn).sendServeMsg :: sc, msg
+//@   props C11
+//@   trusted
+//@   assigns unrestricted
+//@   structural [C11:serve-message-released-when-serving-ended] sends_selectable serveMsgCh doneServing
+//@ func (*serverConn).writeFrameFromHandler :: sc, wr -> err
+//@   props C11
+//@   trusted
+//@   assigns unrestricted
+//@   structural [C11:write-request-released-when-serving-ended] sends_selectable wantWriteFrameCh doneServing
